@@ -250,6 +250,37 @@ def gen_case(rng, layout_name, real=None, boundary=False):
     return case
 
 
+def complement_zone_cases(layout_name, real=None):
+    """Deterministic: Cartesian blocks whose zone list boxes in every loudspeaker but one (so the allocentric row rule
+    of `get_excluded` decides between 'one loudspeaker left' and 'nothing left: ignore the exclusion'), and every
+    loudspeaker but two; point and sized objects. (Seed C01_6: the all-excluded reset tested before the row rule.)"""
+    from ear.core import bs2051, allocentric
+    lay = bs2051.get_layout(layout_name).without_lfe
+    # Cartesian zones are tested against the NOMINAL unit-sphere positions (ZoneExclusionHandler.positions); the row
+    # rule then works on the allocentric positions of the same loudspeakers
+    pos = [[float(x) for x in p] for p in lay.nominal_positions]
+    base = {
+        "layout": layout_name, "real": real, "cartesian": True, "position": [0.3, 0.2, 0.0], "edge": [None, None],
+        "width": 0.0, "height": 0.0, "depth": 0.0, "diffuse": 0.0, "gain": 0.5, "screenRef": False, "lock": None,
+        "div": None, "zones": [], "ogain": 2.0, "mute": False, "offset": None, "refscreen": None, "version": None,
+    }
+
+    def box(p):
+        lo = [max(-1.0, round(v - 0.01, 4)) for v in p]
+        hi = [min(1.0, round(v + 0.01, 4)) for v in p]
+        return ["c"] + lo + hi
+
+    out = []
+    n = len(pos)
+    keeps = [(k,) for k in range(n)] + [(k, (k + 1) % n) for k in range(n)]
+    for i, keep in enumerate(keeps):
+        zones = [box(p) for j, p in enumerate(pos) if j not in keep]
+        size = 0.3 if i % 2 else 0.0
+        out.append(dict(base, zones=zones, width=size, height=size, depth=size,
+                        position=[0.3, 0.2, 0.0] if i % 3 else [-0.5, 0.75, 0.25]))
+    return out
+
+
 def boundary_cases(layout_name, real=None):
     """Deterministic boundary blocks: distance 0, poles, cube faces/corners/centre, extent 0/5/10/360,
     divergence 0/0.5/1, diffuse 0/1, with and without zones."""
